@@ -239,6 +239,18 @@ pub enum Op {
         s: Fe,
         gen: Fe,
     },
+    /// hook: `assert_torsion_free_gates(point, q)` on an untyped point with
+    /// an attacker-chosen auxiliary point given by raw coordinates
+    TorsionSeam {
+        p: u16,
+        q: (Fe, Fe),
+    },
+    /// hook: `append_fixed_base_signed_digits(s, [gen]G, digits)`
+    FixedSeam {
+        s: Fe,
+        gen: Fe,
+        digits: Vec<i8>,
+    },
     /// hook-only: arithmetic row with arbitrary q_arith
     RawArith {
         q_arith: Fe,
@@ -296,6 +308,8 @@ impl Op {
             Op::SelectPoint { .. } => "component_select_point",
             Op::MulGenerator { .. } => "component_mul_generator",
             Op::RawArith { .. } => "raw_arith_row",
+            Op::TorsionSeam { .. } => "assert_torsion_free_gates(seam)",
+            Op::FixedSeam { .. } => "fixed_base_signed_digits(seam)",
             Op::Raw { .. } => "raw_row",
             Op::Pad(_) => "pad",
         }
@@ -866,6 +880,37 @@ pub fn run_ops(
                 let r = c.component_mul_generator(w, curve::to_extended(&g))?;
                 let m = curve::mul_f(&sv, &g).unwrap_or(curve::identity());
                 t.push_tf(r, m, oi);
+            }
+            Op::TorsionSeam { p, q } => {
+                let p = pick(*p, t.pts.len());
+                let qa = dusk_jubjub::JubJubAffine::from_raw_unchecked(q.0 .0, q.1 .0);
+                c.verif_assert_torsion_free_gates(t.pts[p], qa);
+            }
+            Op::FixedSeam { s, gen, digits } => {
+                let mut k = reduce_rj(&gen.0);
+                if k == F::zero() {
+                    k = F::one();
+                }
+                let g = curve::gmul(&k);
+                let sv = input_or(prog, &mut wit_no, s.0);
+                let w = c.append_witness(sv);
+                t.push(w, sv, oi);
+                let mut d = [0i8; 256];
+                for (i, x) in digits.iter().take(256).enumerate() {
+                    d[i] = *x;
+                }
+                let r = c.verif_fixed_base_signed_digits(w, curve::to_extended(&g), &d)?;
+                // model: the point the digits encode
+                let mut acc = curve::identity();
+                for x in d.iter().rev() {
+                    acc = curve::double(&acc).unwrap_or(curve::identity());
+                    match x {
+                        1 => acc = model_add(&acc, &g),
+                        -1 => acc = model_add(&acc, &curve::neg(&g)),
+                        _ => {}
+                    }
+                }
+                t.push_pt(r, acc, true, oi);
             }
             Op::RawArith { q_arith, q, qc, w, pi } => {
                 let [a, b, cc, d] = [wi(&w[0]), wi(&w[1]), wi(&w[2]), wi(&w[3])];
